@@ -2,6 +2,7 @@
 #[allow(unused_imports)]
 use super::*;
 include!("/verif/replay/in_crate/common.rs");
+#[allow(unused_imports)] use std::ops::Deref;
 
 /// C05: past start-up, a block is acceptable iff the six-block window ending at it holds at least two golden tickets
 #[test]
@@ -1792,4 +1793,947 @@ async fn detached_segment_never_takes_the_tip() {
     // once block 3 is there, the chain 1..=6 is complete and must be the longest chain
     assert_eq!(tip_id_final, 6);
     assert!(lc_final.iter().all(|x| *x));
+}
+
+/// C04: a rejected reorganisation leaves no trace — also not in the node's record of its last block (id, hash, timestamp, burn fee),
+/// which feeds the chain request a lite node sends (known finding: on_chain_reorganization updates it per wound block and a roll-back
+/// does not step it back) — scenario of an independent audit
+#[tokio::test]
+#[serial_test::serial]
+async fn rejected_fork_leaves_the_tip_record_alone() {
+    #[allow(unused_imports)] use crate::core::util::test::test_manager::test::TestManager;
+    #[allow(unused_imports)] use crate::core::defs::PrintForLog;
+    #[allow(unused_imports)] use crate::core::consensus::blockchain::AddBlockResult;
+    #[allow(unused_imports)] use crate::core::defs::SaitoHash;
+    #[allow(unused_imports)] use crate::core::util::crypto::hash;
+    use crate::core::defs::SaitoUTXOSetKey;
+
+    let mut t = TestManager::default();
+    t.initialize(100, 200_000_000_000_000).await;
+
+    let (b1_hash, ts) = {
+        let blockchain = t.blockchain_lock.read().await;
+        let b1 = blockchain.get_latest_block().unwrap();
+        (b1.hash, b1.timestamp)
+    };
+    let private_key = { t.wallet_lock.read().await.private_key };
+
+    // main chain o2, o3 : short gaps (2 x heartbeat : no routing work needed, burnfee shrinks slowly)
+    let mut o2 = t.create_block(b1_hash, ts + 200, 0, 0, 0, true).await;
+    o2.generate().unwrap();
+    let (o2_hash, o2_bf) = (o2.hash, o2.burnfee);
+    assert!(matches!(
+        t.add_block(o2).await,
+        AddBlockResult::BlockAddedSuccessfully(_, true, _)
+    ));
+    let mut o3 = t.create_block(o2_hash, ts + 400, 0, 0, 0, true).await;
+    o3.generate().unwrap();
+    let (o3_hash, o3_ts, o3_bf) = (o3.hash, o3.timestamp, o3.burnfee);
+    assert!(matches!(
+        t.add_block(o3).await,
+        AddBlockResult::BlockAddedSuccessfully(_, true, _)
+    ));
+
+    // control : an invalid block offered directly on top of the tip is rejected and the tip record stays
+    {
+        let mut bad4 = t.create_block(o3_hash, ts + 600, 0, 0, 0, true).await;
+        bad4.burnfee += 1;
+        bad4.sign(&private_key);
+        bad4.generate().unwrap();
+        assert!(matches!(
+            t.add_block(bad4).await,
+            AddBlockResult::FailedNotValid
+        ));
+        let blockchain = t.blockchain_lock.read().await;
+        assert_eq!(blockchain.last_block_id, 3);
+        assert_eq!(blockchain.last_block_hash, o3_hash);
+    }
+
+    // fork n2, n3, n4 : long gaps, the burnfee collapses. all three are valid and are only stored
+    let mut n2 = t.create_block(b1_hash, ts + 120_000, 0, 0, 0, true).await;
+    n2.generate().unwrap();
+    let (n2_hash, n2_bf) = (n2.hash, n2.burnfee);
+    assert!(matches!(
+        t.add_block(n2).await,
+        AddBlockResult::BlockAddedSuccessfully(_, false, _)
+    ));
+    let mut n3 = t.create_block(n2_hash, ts + 240_000, 0, 0, 0, true).await;
+    n3.generate().unwrap();
+    let (n3_hash, n3_bf) = (n3.hash, n3.burnfee);
+    assert!(matches!(
+        t.add_block(n3).await,
+        AddBlockResult::BlockAddedSuccessfully(_, false, _)
+    ));
+    let mut n4 = t.create_block(n3_hash, ts + 360_000, 0, 0, 0, true).await;
+    n4.generate().unwrap();
+    let (n4_hash, n4_bf) = (n4.hash, n4.burnfee);
+    assert!(
+        n2_bf + n3_bf + n4_bf < o2_bf + o3_bf,
+        "setup : the three fork blocks must carry less burnfee than the two main chain blocks"
+    );
+    assert!(
+        matches!(
+            t.add_block(n4).await,
+            AddBlockResult::BlockAddedSuccessfully(_, false, _)
+        ),
+        "setup : n4 makes the fork longer but not heavier, it is stored without a reorganisation"
+    );
+
+    // n5 : claims a burnfee that makes the fork the heavier chain. that claim is what is wrong with it
+    let mut n5 = t.create_block(n4_hash, ts + 480_000, 0, 0, 0, true).await;
+    n5.burnfee = o2_bf + o3_bf;
+    n5.sign(&private_key);
+    n5.generate().unwrap();
+    let n5_hash = n5.hash;
+
+    // what an observer sees before the offer
+    type Seen = (
+        u64,
+        SaitoHash,
+        Vec<Option<SaitoHash>>,
+        Vec<(SaitoHash, bool)>,
+        Vec<SaitoUTXOSetKey>,
+        Vec<SaitoUTXOSetKey>,
+        u64,
+    );
+    async fn seen(t: &TestManager) -> Seen {
+        let blockchain = t.blockchain_lock.read().await;
+        let wallet = t.wallet_lock.read().await;
+        let mut flags: Vec<(SaitoHash, bool)> = blockchain
+            .blocks
+            .iter()
+            .map(|(h, b)| (*h, b.in_longest_chain))
+            .collect();
+        flags.sort();
+        let mut spendable: Vec<SaitoUTXOSetKey> = blockchain
+            .utxoset
+            .iter()
+            .filter(|(_, s)| **s)
+            .map(|(k, _)| *k)
+            .collect();
+        spendable.sort();
+        let mut wallet_slips: Vec<SaitoUTXOSetKey> = wallet.slips.keys().cloned().collect();
+        wallet_slips.sort();
+        (
+            blockchain.get_latest_block_id(),
+            blockchain.get_latest_block_hash(),
+            (1..=6)
+                .map(|id| {
+                    blockchain
+                        .blockring
+                        .get_longest_chain_block_hash_at_block_id(id)
+                })
+                .collect(),
+            flags,
+            spendable,
+            wallet_slips,
+            wallet.get_available_balance(),
+        )
+    }
+    let before = seen(&t).await;
+    let (before_id, before_hash, before_ts, before_bf) = {
+        let blockchain = t.blockchain_lock.read().await;
+        (
+            blockchain.last_block_id,
+            blockchain.last_block_hash,
+            blockchain.last_timestamp,
+            blockchain.last_burnfee,
+        )
+    };
+    assert_eq!(before.0, 3);
+    assert_eq!(before.1, o3_hash);
+    assert_eq!((before_id, before_hash), (3, o3_hash));
+    assert_eq!((before_ts, before_bf), (o3_ts, o3_bf));
+
+    // the offer
+    let result = t.add_block(n5).await;
+    assert!(
+        matches!(result, AddBlockResult::FailedNotValid),
+        "the fork must be rejected"
+    );
+
+    // the roll-back itself is clean ...
+    let after = seen(&t).await;
+    assert_eq!(before.0, after.0, "blockring tip id");
+    assert_eq!(before.1, after.1, "blockring tip hash");
+    assert_eq!(before.2, after.2, "longest chain index");
+    assert_eq!(before.3, after.3, "stored blocks and their longest-chain flags");
+    assert_eq!(before.4, after.4, "spendable set");
+    assert_eq!(before.5, after.5, "wallet slips");
+    assert_eq!(before.6, after.6, "wallet balance");
+    let (after_id, after_hash, after_ts, after_bf) = {
+        let blockchain = t.blockchain_lock.read().await;
+        assert!(!blockchain.blocks.contains_key(&n5_hash));
+        (
+            blockchain.last_block_id,
+            blockchain.last_block_hash,
+            blockchain.last_timestamp,
+            blockchain.last_burnfee,
+        )
+    };
+
+    // ... and the honest chain goes on : o4 on top of o3 is accepted as the new tip
+    let mut o4 = t.create_block(o3_hash, ts + 600, 0, 0, 0, true).await;
+    o4.generate().unwrap();
+    let o4_hash = o4.hash;
+    assert!(matches!(
+        t.add_block(o4).await,
+        AddBlockResult::BlockAddedSuccessfully(_, true, _)
+    ));
+    let (later_tip, later_last_hash) = {
+        let blockchain = t.blockchain_lock.read().await;
+        (blockchain.get_latest_block_hash(), blockchain.last_block_hash)
+    };
+    assert_eq!(later_tip, o4_hash);
+
+    if !((after_id, after_hash, after_ts, after_bf) == (before_id, before_hash, before_ts, before_bf)) { witness(format!("the rejected fork left a trace in the node's tip record: before the offer last_block_id/last_block_hash/last_timestamp/last_burnfee were 3/o3 {}/{}/{}, after add_block returned FailedNotValid they are {}/{} {}/{}/{} (n4 = {}, a block of the rejected fork that is not on the longest chain), although the tip is o3 again; and once the honest block o4 {} is accepted at height 4 last_block_hash is {} (still n4: {}), because Blockchain::on_chain_reorganization skips every block whose id is <= last_block_id", before_hash.to_hex(), before_ts, before_bf, after_id, if after_hash == n4_hash { "n4" } else { "?" }, after_hash.to_hex(), after_ts, after_bf, n4_hash.to_hex(), o4_hash.to_hex(), later_last_hash.to_hex(), later_last_hash == n4_hash)); }
+    let _ = n4_bf;
+}
+
+/// C04: a rejected reorganisation leaves the stored blocks as they were (known finding: winding a fork block past 2 x genesis_period
+/// runs the genesis-period purge before the fork is known to be valid; a purged block does not come back) — scenario of an independent audit
+#[tokio::test]
+#[serial_test::serial]
+async fn rejected_fork_purges_no_stored_block() {
+    #[allow(unused_imports)] use crate::core::util::test::test_manager::test::TestManager;
+    #[allow(unused_imports)] use crate::core::consensus::blockchain::AddBlockResult;
+    #[allow(unused_imports)] use crate::core::consensus::blockchain::Blockchain;
+    #[allow(unused_imports)] use crate::core::defs::SaitoHash;
+    #[allow(unused_imports)] use crate::core::util::crypto::hash;
+    #[allow(unused_imports)] use std::sync::Arc;
+    #[allow(unused_imports)] use tokio::sync::RwLock;
+    use crate::core::util::configuration::{
+        BlockchainConfig, Configuration, ConsensusConfig, PeerConfig, Server,
+    };
+
+    struct AuditConfig {
+        consensus: ConsensusConfig,
+        blockchain: BlockchainConfig,
+        peers: Vec<PeerConfig>,
+    }
+    impl std::fmt::Debug for AuditConfig {
+        fn fmt(&self, f: &mut std::fmt::Formatter<'_>) -> std::fmt::Result {
+            write!(f, "AuditConfig")
+        }
+    }
+    impl Configuration for AuditConfig {
+        fn get_server_configs(&self) -> Option<&Server> {
+            None
+        }
+        fn get_peer_configs(&self) -> &Vec<PeerConfig> {
+            &self.peers
+        }
+        fn get_blockchain_configs(&self) -> &BlockchainConfig {
+            &self.blockchain
+        }
+        fn get_block_fetch_url(&self) -> String {
+            String::new()
+        }
+        fn is_spv_mode(&self) -> bool {
+            false
+        }
+        fn is_browser(&self) -> bool {
+            false
+        }
+        fn replace(&mut self, _config: &dyn Configuration) {}
+        fn get_consensus_config(&self) -> Option<&ConsensusConfig> {
+            Some(&self.consensus)
+        }
+    }
+
+    const GP: u64 = 10;
+    let mut t = TestManager::default();
+    t.blockchain_lock = Arc::new(RwLock::new(Blockchain::new(
+        t.wallet_lock.clone(),
+        GP,
+        0,
+        60,
+    )));
+    t.config_lock = Arc::new(RwLock::new(AuditConfig {
+        consensus: ConsensusConfig {
+            genesis_period: GP,
+            heartbeat_interval: 100,
+            prune_after_blocks: 8,
+            max_staker_recursions: 3,
+            default_social_stake: 0,
+            default_social_stake_period: 60,
+        },
+        blockchain: BlockchainConfig::default(),
+        peers: vec![],
+    }));
+    t.initialize(10, 200_000_000_000_000).await;
+
+    let private_key = { t.wallet_lock.read().await.private_key };
+    let (b1_hash, ts) = {
+        let blockchain = t.blockchain_lock.read().await;
+        let b1 = blockchain.get_latest_block().unwrap();
+        (b1.hash, b1.timestamp)
+    };
+
+    // main chain 2..=21, gaps of 2 x heartbeat
+    let mut hashes: Vec<SaitoHash> = vec![[0; 32], b1_hash]; // hashes[id]
+    let mut burnfees: Vec<u64> = vec![0, 0];
+    for id in 2..=21u64 {
+        let mut b = t
+            .create_block(hashes[(id - 1) as usize], ts + 200 * (id - 1), 0, 0, 0, true)
+            .await;
+        b.generate().unwrap();
+        assert_eq!(b.id, id);
+        hashes.push(b.hash);
+        burnfees.push(b.burnfee);
+        assert!(
+            matches!(
+                t.add_block(b).await,
+                AddBlockResult::BlockAddedSuccessfully(_, true, _)
+            ),
+            "setup : main chain block {} is accepted as the tip",
+            id
+        );
+    }
+    let o2_hash = hashes[2];
+    let o19_ts = ts + 200 * 18;
+
+    // fork n20,n21,n22 from block 19 : valid, long gaps => the burnfee collapses => only stored
+    let mut parent = hashes[19];
+    let mut fork_bf = 0;
+    let mut n22_hash = [0; 32];
+    for (i, id) in (20..=22u64).enumerate() {
+        let mut n = t
+            .create_block(parent, o19_ts + 120_000 * (i as u64 + 1), 0, 0, 0, true)
+            .await;
+        n.generate().unwrap();
+        assert_eq!(n.id, id);
+        parent = n.hash;
+        fork_bf += n.burnfee;
+        n22_hash = n.hash;
+        assert!(
+            matches!(
+                t.add_block(n).await,
+                AddBlockResult::BlockAddedSuccessfully(_, false, _)
+            ),
+            "setup : fork block {} is stored without a reorganisation",
+            id
+        );
+    }
+    assert!(fork_bf < burnfees[20] + burnfees[21]);
+
+    // n23 : lies about its burnfee
+    let mut n23 = t
+        .create_block(n22_hash, o19_ts + 120_000 * 4, 0, 0, 0, true)
+        .await;
+    n23.burnfee = burnfees[20] + burnfees[21];
+    n23.sign(&private_key);
+    n23.generate().unwrap();
+
+    // before the offer : tip 21, retention starts at 11, block 2 is stored (memory, index and disk)
+    let o2_file = {
+        let blockchain = t.blockchain_lock.read().await;
+        assert_eq!(blockchain.get_latest_block_id(), 21);
+        assert_eq!(blockchain.get_latest_block_hash(), hashes[21]);
+        assert_eq!(blockchain.genesis_block_id, 21 - GP);
+        assert!(blockchain.blocks.contains_key(&o2_hash));
+        assert!(blockchain.blockring.contains_block_hash_at_block_id(2, o2_hash));
+        assert!(!blockchain.blocks.contains_key(&b1_hash)); // purged when 21 became the tip
+        t.storage
+            .generate_block_filepath(blockchain.get_block(&o2_hash).unwrap())
+    };
+    assert!(
+        std::path::Path::new(&o2_file).exists(),
+        "setup : block 2 is on disk at {}",
+        o2_file
+    );
+    let stored_before = { t.blockchain_lock.read().await.blocks.len() };
+
+    let result = t.add_block(n23).await;
+    assert!(
+        matches!(result, AddBlockResult::FailedNotValid),
+        "the fork must be rejected"
+    );
+
+    let blockchain = t.blockchain_lock.read().await;
+    // the tip is restored ...
+    assert_eq!(blockchain.get_latest_block_id(), 21);
+    assert_eq!(blockchain.get_latest_block_hash(), hashes[21]);
+    // ... but what the wind of n22 purged is gone
+    if !(blockchain.blocks.contains_key(&o2_hash)
+            && blockchain.blockring.contains_block_hash_at_block_id(2, o2_hash)
+            && std::path::Path::new(&o2_file).exists()
+            && blockchain.genesis_block_id == 21 - GP) { witness(format!("the rejected fork n20..n23 left a trace: the tip is block 21 again, but block 2 (on the longest chain of the node) is stored in memory: {} / indexed: {} / on disk: {} (all three were true before the offer), {} blocks are stored instead of {}, and genesis_block_id is {} instead of {} - winding n22 at height 22 ran update_genesis_period/delete_blocks(22 - 2*{}) before n23 failed, and the roll-back cannot bring a purged block back", blockchain.blocks.contains_key(&o2_hash), blockchain.blockring.contains_block_hash_at_block_id(2, o2_hash), std::path::Path::new(&o2_file).exists(), blockchain.blocks.len(), stored_before, blockchain.genesis_block_id, 21 - GP, GP)); }
+}
+
+/// C04: a rejected reorganisation leaves the wallet as it was (known finding: a fork block that confirms the wallet's pending
+/// transaction is wound and unwound; the unwind hands the spent output back as unspent and forgets the pending transaction) — scenario
+/// of an independent audit
+#[tokio::test]
+#[serial_test::serial]
+async fn rejected_fork_leaves_the_wallets_pending_transaction_alone() {
+    #[allow(unused_imports)] use crate::core::util::test::test_manager::test::TestManager;
+    #[allow(unused_imports)] use crate::core::consensus::blockchain::AddBlockResult;
+    #[allow(unused_imports)] use crate::core::util::crypto::hash;
+    use crate::core::consensus::transaction::TransactionType;
+
+    let mut t = TestManager::default();
+    t.initialize(10, 200_000_000_000_000).await;
+
+    let (b1_hash, ts) = {
+        let blockchain = t.blockchain_lock.read().await;
+        let b1 = blockchain.get_latest_block().unwrap();
+        (b1.hash, b1.timestamp)
+    };
+    let private_key = { t.wallet_lock.read().await.private_key };
+    let balance_at_start = { t.wallet_lock.read().await.get_available_balance() };
+    assert_eq!(balance_at_start, 10 * 200_000_000_000_000);
+
+    // the wallet signs T (1000 nolan to itself). it ends up in the fork block n2, which nobody has seen yet
+    let mut n2 = t.create_block(b1_hash, ts + 120_000, 1, 1000, 0, true).await;
+    n2.generate().unwrap();
+    let n2_hash = n2.hash;
+    let tx_t = n2
+        .transactions
+        .iter()
+        .find(|tx| tx.transaction_type == TransactionType::Normal && !tx.from.is_empty())
+        .expect("n2 carries T")
+        .clone();
+    let s_key = tx_t.from[0].utxoset_key;
+    let s_amount = tx_t.from[0].amount;
+    assert_eq!(tx_t.from.len(), 1);
+    assert_eq!(s_amount, 200_000_000_000_000);
+    {
+        let mut wallet = t.wallet_lock.write().await;
+        wallet.add_to_pending(tx_t.clone());
+    }
+
+    // the node's own chain : o2, o3 (T is not in it)
+    let mut o2 = t.create_block(b1_hash, ts + 120_000, 0, 0, 0, true).await;
+    o2.generate().unwrap();
+    let o2_hash = o2.hash;
+    assert_ne!(o2_hash, n2_hash);
+    assert!(matches!(
+        t.add_block(o2).await,
+        AddBlockResult::BlockAddedSuccessfully(_, true, _)
+    ));
+    let mut o3 = t.create_block(o2_hash, ts + 240_000, 0, 0, 0, true).await;
+    o3.generate().unwrap();
+    let o3_hash = o3.hash;
+    assert!(matches!(
+        t.add_block(o3).await,
+        AddBlockResult::BlockAddedSuccessfully(_, true, _)
+    ));
+
+    // the fork : n2 (valid, carries T), n3 (invalid : misreports its burnfee), both only stored
+    assert!(matches!(
+        t.add_block(n2).await,
+        AddBlockResult::BlockAddedSuccessfully(_, false, _)
+    ));
+    let mut n3 = t.create_block(n2_hash, ts + 240_000, 0, 0, 0, true).await;
+    n3.burnfee += 1;
+    n3.sign(&private_key);
+    n3.generate().unwrap();
+    let n3_hash = n3.hash;
+    assert!(matches!(
+        t.add_block(n3).await,
+        AddBlockResult::BlockAddedSuccessfully(_, false, _)
+    ));
+    let mut n4 = t.create_block(n3_hash, ts + 360_000, 0, 0, 0, true).await;
+    n4.generate().unwrap();
+
+    // wallet and chain before the offer
+    let (balance_before, unspent_before, s_unspent_before, s_spent_flag_before, pending_before) = {
+        let wallet = t.wallet_lock.read().await;
+        (
+            wallet.get_available_balance(),
+            wallet.get_unspent_slip_count(),
+            wallet.unspent_slips.contains(&s_key),
+            wallet.slips.get(&s_key).map(|s| s.spent),
+            wallet.pending_txs.len(),
+        )
+    };
+    assert_eq!(balance_before, balance_at_start - s_amount);
+    assert_eq!(unspent_before, 9);
+    assert!(!s_unspent_before);
+    assert_eq!(s_spent_flag_before, Some(true));
+    assert_eq!(pending_before, 1);
+    let spendable_before = {
+        let blockchain = t.blockchain_lock.read().await;
+        assert_eq!(blockchain.get_latest_block_hash(), o3_hash);
+        assert_eq!(blockchain.utxoset.get(&s_key), Some(&true)); // T is not confirmed on the node's chain
+        let mut keys: Vec<_> = blockchain
+            .utxoset
+            .iter()
+            .filter(|(_, s)| **s)
+            .map(|(k, _)| *k)
+            .collect();
+        keys.sort();
+        keys
+    };
+
+    // control : an invalid block offered directly on top of the tip is rejected and the wallet stays as it is
+    {
+        let mut bad4 = t.create_block(o3_hash, ts + 360_000, 0, 0, 0, true).await;
+        bad4.burnfee += 1;
+        bad4.sign(&private_key);
+        bad4.generate().unwrap();
+        assert!(matches!(
+            t.add_block(bad4).await,
+            AddBlockResult::FailedNotValid
+        ));
+        let wallet = t.wallet_lock.read().await;
+        assert_eq!(wallet.get_available_balance(), balance_before);
+        assert_eq!(wallet.get_unspent_slip_count(), unspent_before);
+        assert_eq!(wallet.slips.get(&s_key).map(|s| s.spent), Some(true));
+        assert_eq!(wallet.pending_txs.len(), 1);
+    }
+
+    // the offer : n4 makes the fork longer, n2 is wound, n3 fails, everything is rolled back
+    let result = t.add_block(n4).await;
+    assert!(
+        matches!(result, AddBlockResult::FailedNotValid),
+        "the fork must be rejected"
+    );
+    {
+        let blockchain = t.blockchain_lock.read().await;
+        assert_eq!(blockchain.get_latest_block_hash(), o3_hash);
+        assert_eq!(blockchain.get_latest_block_id(), 3);
+        let mut keys: Vec<_> = blockchain
+            .utxoset
+            .iter()
+            .filter(|(_, s)| **s)
+            .map(|(k, _)| *k)
+            .collect();
+        keys.sort();
+        assert_eq!(keys, spendable_before, "the spendable set is rolled back");
+    }
+
+    let wallet = t.wallet_lock.read().await;
+    if !(wallet.get_available_balance() == balance_before
+            && wallet.get_unspent_slip_count() == unspent_before
+            && wallet.unspent_slips.contains(&s_key) == s_unspent_before
+            && wallet.slips.get(&s_key).map(|s| s.spent) == s_spent_flag_before
+            && wallet.pending_txs.len() == pending_before) { witness(format!("the rejected fork n2-n3-n4 left a trace in the wallet: available balance {} -> {} (+{} = the slip S that the wallet's own pending transaction T spends), unspent slips {} -> {}, S in unspent_slips {} -> {}, S.spent {:?} -> {:?}, pending transactions {} -> {}; T is still valid and unconfirmed on the node's chain, so the wallet will now fund a second transaction with S", balance_before, wallet.get_available_balance(), wallet.get_available_balance() as i128 - balance_before as i128, unspent_before, wallet.get_unspent_slip_count(), s_unspent_before, wallet.unspent_slips.contains(&s_key), s_spent_flag_before, wallet.slips.get(&s_key).map(|s| s.spent), pending_before, wallet.pending_txs.len())); }
+}
+
+/// C15: the common-ancestor estimate is never later than the true fork point (known finding: the fork id samples two bytes of a hash
+/// per checkpoint; a block hash matching in two bytes, ground in ~65000 tries, moves the estimate past the fork point and a needed block
+/// is skipped) — scenario of an independent audit
+#[allow(dead_code)]
+// C15 demo: the fork id carries 2 bytes of each checkpoint block's hash. A forked node whose block at the
+// checkpoint id 10 shares those 2 bytes with the peer's block 10 (1 fork in 65536, or a fork made on purpose:
+// ~65536 timestamps tried) is given a last shared ancestor of 10 although the chains parted after block 8:
+// the peer announces blocks from 10 on, block 9 is skipped and the node never reaches the peer's tip.
+
+/// hands one fetched block to the node exactly as ConsensusEvent::BlockFetched does: into the mempool's block
+/// queue, then Blockchain::add_blocks_from_mempool
+async fn audit_demo_collision_deliver(node: &mut TestManager, buffer: &[u8]) {
+    let mut block = Block::deserialize_from_net(buffer).unwrap();
+    block.generate().unwrap();
+    {
+        let mut mempool = node.mempool_lock.write().await;
+        mempool.add_block(block);
+    }
+    let configs = node.config_lock.read().await;
+    let mut blockchain = node.blockchain_lock.write().await;
+    blockchain
+        .add_blocks_from_mempool(
+            node.mempool_lock.clone(),
+            Some(&node.network),
+            &mut node.storage,
+            None,
+            None,
+            configs.deref(),
+        )
+        .await;
+}
+
+/// highest block id at which both longest chains hold the same block
+async fn audit_demo_collision_fork_point(a: &TestManager, b: &TestManager) -> u64 {
+    let a = a.blockchain_lock.read().await;
+    let b = b.blockchain_lock.read().await;
+    let mut fork_point = 0;
+    for id in 1..=std::cmp::min(a.get_latest_block_id(), b.get_latest_block_id()) {
+        let ha = a.blockring.get_longest_chain_block_hash_at_block_id(id);
+        let hb = b.blockring.get_longest_chain_block_hash_at_block_id(id);
+        if ha.is_some() && ha == hb {
+            fork_point = id;
+        } else {
+            break;
+        }
+    }
+    fork_point
+}
+
+#[tokio::test]
+#[serial_test::serial]
+async fn shared_ancestor_estimate_survives_a_two_byte_collision() {
+    #[allow(unused_imports)] use std::ops::Deref;
+    #[allow(unused_imports)] use ahash::AHashMap;
+    #[allow(unused_imports)] use crate::core::consensus::wallet::Wallet;
+    #[allow(unused_imports)] use crate::core::util::test::test_manager::test::TestManager;
+    #[allow(unused_imports)] use crate::core::defs::PrintForLog;
+    #[allow(unused_imports)] use crate::core::consensus::transaction::Transaction;
+    #[allow(unused_imports)] use crate::core::consensus::block::Block;
+    #[allow(unused_imports)] use crate::core::consensus::block::BlockType;
+    #[allow(unused_imports)] use crate::core::consensus::blockchain::AddBlockResult;
+    #[allow(unused_imports)] use crate::core::defs::SaitoHash;
+    #[allow(unused_imports)] use crate::core::util::crypto::hash;
+    let full = crate::core::consensus::block::BlockType::Full;
+    // the honest peer : blocks 1..=13 (B chain), a block every 2 minutes, a golden ticket in every block
+    let mut peer = TestManager::default();
+    peer.initialize(100, 200_000_000_000_000).await;
+    let mut peer_buffers: Vec<Vec<u8>> = vec![];
+    let mut peer_hashes: Vec<SaitoHash> = vec![];
+    let mut peer_ts: Vec<u64> = vec![];
+    {
+        let blockchain = peer.blockchain_lock.read().await;
+        let block = blockchain.get_latest_block().unwrap();
+        peer_buffers.push(block.serialize_for_net(full));
+        peer_hashes.push(block.hash);
+        peer_ts.push(block.timestamp);
+    }
+    for _ in 2..=13u64 {
+        let parent_hash = *peer_hashes.last().unwrap();
+        let parent_ts = *peer_ts.last().unwrap();
+        let mut block = peer
+            .create_block(parent_hash, parent_ts + 120_000, 0, 0, 0, true)
+            .await;
+        block.generate().unwrap();
+        peer_buffers.push(block.serialize_for_net(full));
+        peer_hashes.push(block.hash);
+        peer_ts.push(block.timestamp);
+        let result = peer.add_block(block).await;
+        assert!(matches!(
+            result,
+            AddBlockResult::BlockAddedSuccessfully(_, true, _)
+        ));
+        let _ = peer.receiver_in_miner.try_recv();
+    }
+    let peer_tip = peer.blockchain_lock.read().await.get_latest_block_hash();
+    assert_eq!(peer.blockchain_lock.read().await.get_latest_block_id(), 13);
+    let b10 = peer_hashes[9];
+
+    // the node's fork : A9 on block 8, A10, A11 (made with the peer's TestManager, used here as a block factory
+    // only: the peer stays on B13). A10 is the first candidate (timestamps tried one millisecond apart) whose
+    // hash starts with the same 2 bytes as the peer's block 10
+    let mut a9 = peer
+        .create_block(peer_hashes[7], peer_ts[7] + 130_000, 0, 0, 0, true)
+        .await;
+    a9.generate().unwrap();
+    let a9_hash = a9.hash;
+    let a9_ts = a9.timestamp;
+    let a9_buffer = a9.serialize_for_net(full);
+    assert!(matches!(
+        peer.add_block(a9).await,
+        AddBlockResult::BlockAddedSuccessfully(_, false, _)
+    ));
+    // (the golden ticket for A9 is mined once; each candidate is built by Block::create, as
+    // TestManager::create_block does, with another timestamp)
+    let (public_key, private_key) = {
+        let wallet = peer.wallet_lock.read().await;
+        (wallet.public_key, wallet.private_key)
+    };
+    let a9_difficulty = peer
+        .blockchain_lock
+        .read()
+        .await
+        .get_block(&a9_hash)
+        .unwrap()
+        .difficulty;
+    let golden_ticket =
+        TestManager::create_golden_ticket(peer.wallet_lock.clone(), a9_hash, a9_difficulty).await;
+    let mut gttx =
+        Wallet::create_golden_ticket_transaction(golden_ticket, &public_key, &private_key).await;
+    gttx.generate(&public_key, 0, 0);
+    let mut a10_plain: Option<Block> = None;
+    let mut a10_colliding: Option<Block> = None;
+    let mut candidates_tried = 0u64;
+    for k in 0..3_000_000u64 {
+        let mut transactions: ahash::AHashMap<
+            crate::core::defs::SaitoSignature,
+            crate::core::consensus::transaction::Transaction,
+        > = Default::default();
+        transactions.insert(gttx.signature, gttx.clone());
+        let mut candidate = {
+            let configs = peer.config_lock.read().await;
+            let blockchain = peer.blockchain_lock.read().await;
+            Block::create(
+                &mut transactions,
+                a9_hash,
+                &blockchain,
+                a9_ts + 120_000 + k,
+                &public_key,
+                &private_key,
+                None,
+                configs.deref(),
+                &peer.storage,
+            )
+            .await
+            .unwrap()
+        };
+        candidate.generate().unwrap();
+        candidates_tried += 1;
+        if candidate.hash[0] == b10[0] && candidate.hash[1] == b10[1] {
+            candidate.sign(&private_key);
+            a10_colliding = Some(candidate);
+            break;
+        } else if a10_plain.is_none() {
+            candidate.sign(&private_key);
+            a10_plain = Some(candidate);
+        }
+    }
+    let a10_plain = a10_plain.expect("first candidate collided: run again");
+    let a10 = a10_colliding.expect("no colliding candidate found in 3_000_000 tries");
+    let a10_hash = a10.hash;
+    let a10_ts = a10.timestamp;
+    let a10_buffer = a10.serialize_for_net(full);
+    let a10_plain_buffer = a10_plain.serialize_for_net(full);
+    assert_ne!(a10_hash, b10);
+    assert!(matches!(
+        peer.add_block(a10).await,
+        AddBlockResult::BlockAddedSuccessfully(_, false, _)
+    ));
+    let mut a11 = peer
+        .create_block(a10_hash, a10_ts + 120_000, 0, 0, 0, true)
+        .await;
+    a11.generate().unwrap();
+    let a11_hash = a11.hash;
+    let a11_buffer = a11.serialize_for_net(full);
+    assert!(matches!(
+        peer.add_block(a11).await,
+        AddBlockResult::BlockAddedSuccessfully(_, false, _)
+    ));
+    assert_eq!(
+        peer.blockchain_lock.read().await.get_latest_block_hash(),
+        peer_tip
+    );
+
+    // control : a node on 1..8,A9,A10' (A10' = the first candidate, no collision) : the estimate is not later
+    // than the fork point 8
+    {
+        let mut node = TestManager::default();
+        node.disable_staking().await;
+        for id in 1..=8usize {
+            audit_demo_collision_deliver(&mut node, &peer_buffers[id - 1]).await;
+        }
+        audit_demo_collision_deliver(&mut node, &a9_buffer).await;
+        audit_demo_collision_deliver(&mut node, &a10_plain_buffer).await;
+        assert_eq!(node.blockchain_lock.read().await.get_latest_block_id(), 10);
+        let fork_point = audit_demo_collision_fork_point(&node, &peer).await;
+        assert_eq!(fork_point, 8);
+        let fork_id = node
+            .blockchain_lock
+            .read()
+            .await
+            .generate_fork_id(10)
+            .unwrap();
+        let ancestor = peer
+            .blockchain_lock
+            .read()
+            .await
+            .generate_last_shared_ancestor(10, fork_id);
+        assert!(ancestor <= fork_point);
+    }
+
+    // the node on 1..8,A9,A10,A11 (a valid chain: every block is accepted into its longest chain)
+    let mut node = TestManager::default();
+    node.disable_staking().await;
+    for id in 1..=8usize {
+        audit_demo_collision_deliver(&mut node, &peer_buffers[id - 1]).await;
+    }
+    for buffer in [&a9_buffer, &a10_buffer, &a11_buffer] {
+        audit_demo_collision_deliver(&mut node, buffer).await;
+    }
+    assert_eq!(node.blockchain_lock.read().await.get_latest_block_id(), 11);
+    assert_eq!(
+        node.blockchain_lock.read().await.get_latest_block_hash(),
+        a11_hash
+    );
+    let fork_point = audit_demo_collision_fork_point(&node, &peer).await;
+    assert_eq!(fork_point, 8);
+
+    // the exchange of Network::request_blockchain_from_peer / RoutingThread::process_incoming_blockchain_request
+    let (node_latest_id, fork_id) = {
+        let blockchain = node.blockchain_lock.read().await;
+        (
+            blockchain.get_latest_block_id(),
+            blockchain
+                .generate_fork_id(blockchain.get_latest_block_id())
+                .unwrap(),
+        )
+    };
+    let (ancestor, announced): (u64, Vec<(u64, SaitoHash)>) = {
+        let blockchain = peer.blockchain_lock.read().await;
+        let ancestor = blockchain.generate_last_shared_ancestor(node_latest_id, fork_id);
+        let mut announced = vec![];
+        for i in ancestor..(blockchain.blockring.get_latest_block_id() + 1) {
+            if let Some(hash) = blockchain.blockring.get_longest_chain_block_hash_at_block_id(i) {
+                announced.push((i, hash));
+            }
+        }
+        (ancestor, announced)
+    };
+    // the node fetches what was announced and what it does not hold, in order
+    for (id, hash) in announced.iter() {
+        if !node.blockchain_lock.read().await.is_block_indexed(*hash) {
+            audit_demo_collision_deliver(&mut node, &peer_buffers[(*id - 1) as usize]).await;
+        }
+    }
+    let (node_tip_id, node_tip_hash, holds_b9) = {
+        let blockchain = node.blockchain_lock.read().await;
+        (
+            blockchain.get_latest_block_id(),
+            blockchain.get_latest_block_hash(),
+            blockchain.is_block_indexed(peer_hashes[8]),
+        )
+    };
+    if !(ancestor <= fork_point) { witness(format!("node chain 1..8,A9,A10,A11 and peer chain 1..13 part after block {} (A10 {} and the peer's block 10 {} differ but start with the same 2 bytes, found after {} tries), yet generate_last_shared_ancestor({}, fork id of the node) on the peer returns {}: the peer announces blocks {}..=13, block 9 is skipped (node holds the peer's block 9: {}), and after fetching everything announced the node is on block {} ({}) and not on the peer's tip block 13 ({}) (C15: the estimate is never later than the true fork point, so no needed block is skipped)", fork_point, a10_hash.to_hex(), b10.to_hex(), candidates_tried, node_latest_id, ancestor, announced.first().map(|(id, _)| *id).unwrap_or(0), holds_b9, node_tip_id, node_tip_hash.to_hex(), peer_tip.to_hex())); }
+    assert_eq!((node_tip_id, node_tip_hash), (13, peer_tip));
+}
+
+/// C15/C05: an empty node that fetches the peer's blocks in the order 3,1,2,4 ends on the peer's tip (known finding: the first block
+/// becomes the chain whatever its id; the out-of-order branch then disconnects by hand and block 3 is wound twice) — scenario of an
+/// independent audit
+#[allow(dead_code)]
+// C15 demo: an empty node whose fetch of block 3 completes before the fetches of blocks 1 and 2 does not
+// end on the peer's tip: block 3 is wound as the start of the chain; when block 1 arrives the "blocks
+// received out-of-order" branch of add_block takes block 3 off the blockring WITHOUT unwinding it from the
+// utxo set; blocks 1 and 2 are then wound on top of the utxo set of block 3 and block 3 is never connected
+// (the node sits on block 2 holding blocks 1,2,3); when the peer's block 4 arrives, block 3 is wound a second
+// time on a utxo set that already contains it and the node panics in check_total_supply.
+
+/// hands one fetched block to the node exactly as ConsensusEvent::BlockFetched does: into the mempool's block
+/// queue, then Blockchain::add_blocks_from_mempool
+async fn audit_demo_fresh_deliver(node: &mut TestManager, buffer: &[u8]) {
+    let mut block = Block::deserialize_from_net(buffer).unwrap();
+    block.generate().unwrap();
+    {
+        let mut mempool = node.mempool_lock.write().await;
+        mempool.add_block(block);
+    }
+    let configs = node.config_lock.read().await;
+    let mut blockchain = node.blockchain_lock.write().await;
+    blockchain
+        .add_blocks_from_mempool(
+            node.mempool_lock.clone(),
+            Some(&node.network),
+            &mut node.storage,
+            None,
+            None,
+            configs.deref(),
+        )
+        .await;
+}
+
+#[tokio::test]
+#[serial_test::serial]
+async fn fresh_node_receiving_a_later_block_first_still_converges() {
+    #[allow(unused_imports)] use crate::core::util::test::test_manager::test::TestManager;
+    #[allow(unused_imports)] use crate::core::consensus::block::BlockType;
+    #[allow(unused_imports)] use crate::core::consensus::blockchain::AddBlockResult;
+    #[allow(unused_imports)] use crate::core::defs::SaitoHash;
+    #[allow(unused_imports)] use crate::core::util::crypto::hash;
+    #[allow(unused_imports)] use std::panic::AssertUnwindSafe;
+    use futures::FutureExt;
+
+    // the honest peer : blocks 1..=4, blocks 2, 3 and 4 carry a golden ticket and one payment of 1000 nolan
+    let mut peer = TestManager::default();
+    peer.initialize(100, 200_000_000_000_000).await;
+    let mut buffers: Vec<Vec<u8>> = vec![];
+    let mut hashes: Vec<SaitoHash> = vec![];
+    {
+        let blockchain = peer.blockchain_lock.read().await;
+        let block = blockchain.get_latest_block().unwrap();
+        buffers.push(block.serialize_for_net(crate::core::consensus::block::BlockType::Full));
+        hashes.push(block.hash);
+    }
+    for _ in 2..=4u64 {
+        let (parent_hash, parent_ts) = {
+            let blockchain = peer.blockchain_lock.read().await;
+            let block = blockchain.get_latest_block().unwrap();
+            (block.hash, block.timestamp)
+        };
+        let mut block = peer
+            .create_block(parent_hash, parent_ts + 120000, 1, 1000, 0, true)
+            .await;
+        block.generate().unwrap();
+        buffers.push(block.serialize_for_net(crate::core::consensus::block::BlockType::Full));
+        hashes.push(block.hash);
+        let result = peer.add_block(block).await;
+        assert!(matches!(
+            result,
+            AddBlockResult::BlockAddedSuccessfully(_, true, _)
+        ));
+        let _ = peer.receiver_in_miner.try_recv();
+    }
+    let peer_tip = peer.blockchain_lock.read().await.get_latest_block_hash();
+    assert_eq!(peer.blockchain_lock.read().await.get_latest_block_id(), 4);
+    assert_eq!(peer_tip, hashes[3]);
+
+    // control : an empty node, the four fetches complete in the order 1,2,3,4
+    {
+        let mut node = TestManager::default();
+        node.disable_staking().await;
+        for id in [1usize, 2, 3, 4] {
+            audit_demo_fresh_deliver(&mut node, &buffers[id - 1]).await;
+        }
+        let blockchain = node.blockchain_lock.read().await;
+        assert_eq!(blockchain.get_latest_block_id(), 4);
+        assert_eq!(blockchain.get_latest_block_hash(), peer_tip);
+    }
+    // reference : the utxo set of a node that holds blocks 1 and 2 only
+    let utxo_after_1_2 = {
+        let mut node = TestManager::default();
+        node.disable_staking().await;
+        for id in [1usize, 2] {
+            audit_demo_fresh_deliver(&mut node, &buffers[id - 1]).await;
+        }
+        let blockchain = node.blockchain_lock.read().await;
+        assert_eq!(blockchain.get_latest_block_hash(), hashes[1]);
+        blockchain.utxoset.clone()
+    };
+
+    // an empty node, the same blocks, the fetch of block 3 completes before those of blocks 1 and 2
+    let mut node = TestManager::default();
+    node.disable_staking().await;
+    for id in [3usize, 1, 2] {
+        audit_demo_fresh_deliver(&mut node, &buffers[id - 1]).await;
+    }
+    let (tip_id_after_3_1_2, differing_utxo_entries) = {
+        let blockchain = node.blockchain_lock.read().await;
+        // blocks 1,2,3 are all indexed, nothing waits in the mempool
+        for hash in hashes[0..3].iter() {
+            assert!(blockchain.is_block_indexed(*hash));
+        }
+        assert_eq!(node.mempool_lock.read().await.blocks_queue.len(), 0);
+        let differing_utxo_entries = blockchain
+            .utxoset
+            .iter()
+            .filter(|(key, value)| utxo_after_1_2.get(*key) != Some(*value))
+            .count()
+            + utxo_after_1_2
+                .keys()
+                .filter(|key| !blockchain.utxoset.contains_key(*key))
+                .count();
+        (blockchain.get_latest_block_id(), differing_utxo_entries)
+    };
+    // the peer's block 4 arrives
+    let outcome = std::panic::AssertUnwindSafe(async {
+        audit_demo_fresh_deliver(&mut node, &buffers[3]).await;
+    })
+    .catch_unwind()
+    .await;
+    let panic_text = match &outcome {
+        Ok(()) => "no panic".to_string(),
+        Err(e) => e
+            .downcast_ref::<&str>()
+            .map(|s| s.to_string())
+            .or_else(|| e.downcast_ref::<String>().cloned())
+            .unwrap_or("panic".to_string()),
+    };
+    if !(outcome.is_ok()) { witness(format!("an empty node that fetched the peer's blocks 1..=4 in the order 3,1,2,4 sat on block {} after 3,1,2 (holding blocks 1,2,3, its utxo set differing in {} entries from that of a node holding blocks 1,2 only) and then panicked with '{}' while adding block 4, instead of ending on the peer's tip block 4: block 3 was wound as the chain start, the arrival of block 1 took it off the blockring without unwinding its utxos, and it was wound a second time under block 4 (C15: the node ends on the peer's tip under every delivery order of the fetched blocks)", tip_id_after_3_1_2, differing_utxo_entries, panic_text)); }
+    let blockchain = node.blockchain_lock.read().await;
+    assert_eq!(
+        (blockchain.get_latest_block_id(), blockchain.get_latest_block_hash()),
+        (4, peer_tip),
+        "an empty node that fetched the peer's blocks 1..=4 in the order 3,1,2,4 holds all 4 blocks but its tip is block {} and not the peer's tip block 4 (C15: the node ends on the peer's tip under every delivery order of the fetched blocks)",
+        blockchain.get_latest_block_id()
+    );
 }
